@@ -110,6 +110,14 @@ def gen_random(rng):
         if r < 0.02 and state[p] == "free":
             hist.append(("thread", rng.choice([1, 2]), p))      # recycled as a *thread* id (kill/setpriority/... accept those)
             state[p] = "tid"
+        elif r < 0.05 and state[p] == "live":
+            hist.append(("thread", p, 300 + len(hist)))         # the process becomes multi-threaded (ids of their own)
+        elif r < 0.08 and nh:
+            # a handle is duplicated (copy.copy works for these objects; pickle / deepcopy are refused - if they ever
+            # are not, the duplicate is a handle like any other)
+            hist.append(("copy", rng.randrange(nh), rng.choice(["copy", "copy", "pickle", "deepcopy"])))
+            if hist[-1][2] == "copy":
+                nh += 1
         elif r < 0.18:
             if state[p] == "free":
                 z = rng.random() < 0.2
@@ -233,7 +241,7 @@ def run_history(hist, acc, with_pid0=False, caller_pid=None):
     with w:
         for op in hist:
             op = tuple(op)
-            if op[0] in ("isrun", "q", "sig", "set", "osenter", "osexit", "wait"):
+            if op[0] in ("isrun", "q", "sig", "set", "osenter", "osexit", "wait", "copy"):
                 hi = op[1]
                 if hi == -1:
                     hi = len(w.handles) - 1
@@ -251,6 +259,8 @@ def run_history(hist, acc, with_pid0=False, caller_pid=None):
             if op[0] == "vanish" and op[1] not in w.t.procs:
                 continue
             rec = w.apply(op)
+            if op[0] == "copy":
+                acc.count("handles_duplicated" if rec.get("res") == ("ok", None) else "handle_duplication_refused")
             ctx = f"history={[list(o) for o in hist]} at op={list(op)} res={rec.get('res')} events={rec['events']}"
             if rec["breaches"]:
                 viols.append(("kill_nonpositive_pid", ctx + f" breaches={rec['breaches']}"))
@@ -351,6 +361,26 @@ def tid_reuse_histories():
         for seen in ([], [("isrun", 0)], [("sig", 0, "send_signal", 0)], [("wait", 0)], [("q", 0, "name")]):
             out.append([("spawn", 7, False), ("new", 7), ("vanish", 7)] + seen + [("thread", 1, 7), tail, ("isrun", 0), tail])
         out.append([("spawn", 7, False), ("iter", "keep"), ("exit", 7), ("reap", 7), ("iter", "keep"), ("thread", 2, 7), tail])
+    return out
+
+
+def copy_histories():
+    """Handles that were duplicated or serialised (copy.copy, copy.deepcopy, pickle) before or after the PID changed hands;
+    multi-threaded targets (a setting goes to the PID of the object, not to ids found in its task directory)."""
+    out = []
+    tails = [("sig", 1, "kill", None), ("sig", 1, "send_signal", 10), ("set", 1, "nice", 5), ("set", 1, "affinity", [1]),
+             ("set", 1, "ionice", [2, 3]), ("set", 1, "rlimit", [7, [5, 9]])]
+    for how in ("copy", "deepcopy", "pickle"):
+        for tail in tails:
+            out.append([("spawn", 7, False), ("new", 7), ("vanish", 7), ("spawn", 7, False), ("copy", 0, how), tail, ("isrun", 1)])
+            out.append([("spawn", 7, False), ("new", 7), ("copy", 0, how), ("vanish", 7), ("spawn", 7, False), tail, ("isrun", 1)])
+            out.append([("spawn", 7, False), ("new", 7), ("vanish", 7), ("spawn", 7, False), ("isrun", 0), ("copy", 0, how), tail])
+            out.append([("spawn", 7, False), ("new", 7), ("vanish", 7), ("isrun", 0), ("copy", 0, how), ("spawn", 7, False), tail])
+            out.append([("spawn", 7, False), ("new", 7), ("copy", 0, how), tail, ("isrun", 1)])
+    for tail in [("sig", 0, "kill", None), ("sig", 0, "suspend", None), ("set", 0, "nice", 5), ("set", 0, "affinity", [1]),
+                 ("set", 0, "affinity", []), ("set", 0, "ionice", [2, 3]), ("set", 0, "rlimit", [7, [5, 9]])]:
+        out.append([("spawn", 7, False), ("thread", 7, 301), ("thread", 7, 302), ("new", 7), tail, ("isrun", 0)])
+        out.append([("spawn", 7, False), ("new", 7), ("thread", 7, 301), tail, ("thread", 7, 302), tail])
     return out
 
 
@@ -679,6 +709,9 @@ def run_shard(shard):
         for h in odd_name_histories():
             run_history(h, acc)
             acc.count("histories_with_odd_process_names")
+        for h in copy_histories():
+            run_history(h, acc)
+            acc.count("histories_with_copied_handles_or_multithreaded_targets")
         acc.count("exhaustive_signal_numbers", len(SIGNOS))
         for opname in ("kill", "terminate", "suspend", "send_signal", "nice", "ionice", "affinity", "rlimit"):
             run_blocked_call(dict(op=opname), acc)
